@@ -304,14 +304,14 @@ Print Assumptions tie_operations_util_datastore_or_url.
 (* ncclient/operations/util.py:51  operations.util.build_filter *)
 Theorem tie_operations_util_build_filter : L_operations_util_build_filter =
   [Builders.s_xpath;
-   Builders.s_filter;
+   Builders.s_filter; Builders.s_type;          (* new_ele_nsmap("filter", ns, type=type): the keyword is the attribute name *)
    Builders.s_select;
-   Builders.s_filter;
+   Builders.s_filter; Builders.s_type;
    Builders.s_select;
    Builders.s_subtree;
-   Builders.s_filter;
+   Builders.s_filter; Builders.s_type;
    lit "Invalid filter type"%string;
-   Builders.s_filter;
+   Builders.s_filter; Builders.s_type;
    Builders.s_subtree;
    Builders.s_filter;
    Builders.s_filter;
